@@ -341,6 +341,21 @@ class Evidence:
 
     def write(self):
         self.d["wall_s"] = round(time.time() - self.t0, 2)
+        # schema hygiene: typed keys of the evidence schema keep their types (free text goes to *_scope / *_note keys)
+        cov = self.d.get("coverage", {})
+        if "exhaustive" in cov and not isinstance(cov["exhaustive"], bool):
+            cov["exhaustive_scope"] = str(cov["exhaustive"])
+            cov["exhaustive"] = False
+        for k in ("evaluations", "distinct_nontrivial", "states", "transitions", "traces_validated_against_impl", "obligations",
+                  "discharged", "programs", "disagreements_checked"):
+            if k in cov and not (isinstance(cov[k], int) and not isinstance(cov[k], bool)):
+                try:
+                    cov[k] = max(0, int(cov[k]))
+                except (TypeError, ValueError):
+                    cov[k + "_note"] = str(cov.pop(k))
+        for k in ("rule", "explanation", "checker_cmd"):
+            if k in cov and not isinstance(cov[k], str):
+                cov[k] = json.dumps(cov[k], default=str)
         os.makedirs(EVID, exist_ok=True)
         p = os.path.join(EVID, self.d["property_id"] + ".json")
         with open(p + ".tmp", "w") as f:
